@@ -46,7 +46,8 @@ structure Req where
   cookie : Cookie
   basic : Basic
   ctype : Bytes           -- `r.Header.Get("Content-Type")`
-  contentLength : Nat     -- `r.ContentLength` (never negative for the requests considered)
+  contentLength : Int     -- `r.ContentLength`: 0 = no body, n > 0 = n bytes, -1 = unknown
+                          -- (HTTP/1.1 chunked, HTTP/2 without content-length)
   firstRun : Bool         -- `globalContext.firstRun`
   usersExist : Bool       -- `globalContext.auth != nil && auth.authRequired()`
   deriving DecidableEq, Repr
@@ -127,7 +128,9 @@ def authenticated (r : Req) : Bool :=
 /-- `modifiesData` (control.go:233). -/
 def modifiesData (m : Bytes) : Bool := m == sPOST || m == sPUT || m == sDELETE
 
-/-- `ensureContentType` (control.go:238): `true` = the request may proceed. -/
+/-- `ensureContentType` (control.go:238): `true` = the request may proceed.
+Only `ContentLength == 0` takes the "no body, no content type" branch; every
+other value, including the unknown length -1, needs `application/json`. -/
 def ctypeOK (r : Req) : Bool :=
   if r.contentLength = 0 then r.ctype == [] else r.ctype == sAppJSON
 
